@@ -26,7 +26,7 @@ RULE = ("case = one verified restart of constructSurrogate in a fresh process af
         "checkpoint files, a second kill inside the restart, a kill at a seeded time (parallel mode), or a planted torn prefix of a snapshot); "
         "non-trivial = the final stage ran to its verdict; distinct = distinct (scenario signature | fault class)")
 
-WATCHDOG = 20   # seconds for the judged stage (the whole uninterrupted scenario takes milliseconds)
+WATCHDOG = 10   # seconds for the judged stage (the whole uninterrupted scenario takes milliseconds)
 
 # ---------------------------------------------------------------------------------------------------------------
 class Ctx:
@@ -37,7 +37,7 @@ class Ctx:
         self.root = None
         self.lock = threading.Lock()
         self.dry = {}      # (scen, par) -> dict(dir, ops, snaps, log)
-        self.hung = set()  # (scen, par, fault class) whose restart already hit the watchdog: established once, not paid for again
+        self.hung = set()  # (scenario, fault family) whose restart already hit the watchdog: the violation is established once and not paid for again
 
 def build_shim():
     out = os.path.join(CK.BUILD_ROOT, "fs_shim.so")
@@ -234,9 +234,9 @@ def exec_prefix(ctx, spec, d):
     return final_stage(ctx, spec.get("variant", "plain"), scen, 0, d, 1, spec["fclass"], snap, pts)
 
 def execute(ctx, spec, idx):
-    hk = (spec["scen"], spec.get("par", 0), spec.get("fclass"))
+    hk = (spec["scen"], spec.get("par", 0), spec["type"], spec.get("which"), bool(spec.get("chain")))   # scenario x fault family
     if hk in ctx.hung:
-        return dict(status="inc", viols=[], counters={"inconclusive:same-scenario-and-fault-class-already-hung": 1}, sigs=[], descriptor=None, info={}, variant=spec.get("variant", "plain"), spec=spec, index=idx)
+        return dict(status="inc", viols=[], counters={"inconclusive:same-scenario-and-fault-family-already-hung": 1}, sigs=[], descriptor=None, info={}, variant=spec.get("variant", "plain"), spec=spec, index=idx)
     d = os.path.join(ctx.root, "case_%d" % idx); shutil.rmtree(d, ignore_errors=True); os.makedirs(d)
     try:
         if spec["type"] == "prefix": v = exec_prefix(ctx, spec, d)
